@@ -150,6 +150,10 @@ class Enc:
     def g_tick(self, t):
         if isinstance(t, TickAddEvent):
             return "TAdd %s %s" % (self.g_att(t), gopt(lambda s: gz(self.STEP.get(s, 99)), t.step_name))
+        if isinstance(t, TickCancelRun):
+            return "TCancel"
+        if isinstance(t, TickTimeout):
+            return "TTimeout %s" % gz(sc(t.timeout))
         raise TypeError(t)
 
     def e_pub(self, ev):
@@ -200,7 +204,7 @@ def run_case(template, seed):
     PR.install()
     PR.reset()
     spec, rec, obs = E.run_case(template, seed)
-    if spec.get("timeout") or spec.get("handlers"):
+    if (spec.get("timeout") and not spec.get("rd_exit")) or spec.get("handlers"):
         return None, "workflow timeout / handlers are outside the runner model"
     log = [(t, now) for (_, t, now) in PR.TICKLOG]
     PR.reset()
@@ -240,7 +244,12 @@ def run_case(template, seed):
         elif isinstance(t, TickAddEvent) and not t.attempts and not isinstance(t.event, StepFailedEvent) \
                 and t.event.get("i", None) not in sent_ids and t.event.get("i", None) not in returned_ids:
             acts.append("ADeliver (%s)" % enc.g_tick(t))     # sent from outside the run (driver externals)
-        elif isinstance(t, (TickCancelRun, TickPublishEvent, TickTimeout)):
+        elif isinstance(t, (TickCancelRun, TickTimeout)):
+            # cancel_run puts TickCancelRun into the run's mailbox; the workflow timeout is a wake-up the real loop schedules
+            # at its start (the model has no such wake-up: the tick is delivered by the environment at the instant it fired -
+            # the templates keep that instant apart from every retry / waiter wake-up)
+            acts.append("ADeliver (%s)" % enc.g_tick(t))
+        elif isinstance(t, TickPublishEvent):
             return None, "tick kind outside the compared fragment"
     ticks_enc = [len(log)] + [z for t, _ in log for z in enc.e_tick(t)]
     pubs = [e for e in obs.stream if not isinstance(e, tuple)]
